@@ -78,8 +78,23 @@ class ErrorRender:
 
 	def __build_message(self) -> str:
 		"""Returns: 例外メッセージ"""
-		join_args = ', '.join([f'"{arg}"' if isinstance(arg, str) else str(arg) for arg in self.e.args])
+		join_args = ', '.join([self.__arg_to_str(arg) for arg in self.e.args])
 		return f'({join_args})'
+
+	def __arg_to_str(self, arg: object) -> str:
+		"""例外の引数を文字列化
+
+		Args:
+			arg: 例外の引数
+		Returns:
+			文字列表現
+		Note:
+			ノードやシンボルの文字列化は遅延解決を伴うため、エラーの原因となった要素では再度例外が発生し得る。その場合は型名のみを出力
+		"""
+		try:
+			return f'"{arg}"' if isinstance(arg, str) else str(arg)
+		except Exception as e:
+			return f'<{arg.__class__.__name__}: unprintable ({e.__class__.__name__})>'
 
 	class Quotation:
 		"""引用ビルダー"""
